@@ -25,6 +25,7 @@ type TokenBucketRateLimiter struct {
 type bucket struct {
 	tokens     int
 	lastRefill time.Time
+	evicted    bool       // Set once cleanup has removed the bucket from the map
 	mutex      sync.Mutex // Only lock when modifying tokens
 }
 
@@ -48,6 +49,13 @@ func (rl *TokenBucketRateLimiter) Allow(clientIP string) bool {
 	b := rl.getOrCreateBucket(clientIP)
 
 	b.mutex.Lock()
+	// cleanup may have evicted the bucket between the lookup and the lock: it is not the
+	// client's bucket any more, so spend from the one that replaced it
+	for b.evicted {
+		b.mutex.Unlock()
+		b = rl.getOrCreateBucket(clientIP)
+		b.mutex.Lock()
+	}
 	defer b.mutex.Unlock()
 
 	rl.refillTokens(b)
@@ -120,11 +128,14 @@ func (rl *TokenBucketRateLimiter) cleanup() {
 		b.mutex.Lock()
 		shouldDelete := b.lastRefill.Before(cutoff) &&
 			b.tokens+int(now.Sub(b.lastRefill)/rl.refillRate) >= rl.maxTokens
-		b.mutex.Unlock()
-
 		if shouldDelete {
+			// Removed and marked while the bucket is locked, so that a request which already
+			// looked the bucket up does not spend from it next to its replacement
+			b.evicted = true
 			rl.buckets.Delete(ip)
 		}
+		b.mutex.Unlock()
+
 		return true // continue iteration
 	})
 }
